@@ -380,7 +380,7 @@ func foreignStruct(t types.Type) bool {
 		return false
 	}
 	switch p + "." + n.Obj().Name() {
-	case "bytes.Buffer", "strings.Builder":
+	case "bytes.Buffer", "strings.Builder", "net/url.URL":
 		return false
 	}
 	return true
